@@ -876,7 +876,7 @@ fn run_c18(t: &mut Tape, tier: Tier) -> RunOut {
             out.violate("C08", "no-panic", format!("corpus[{}] panicked:{}", i, msg));
         }
     }
-    let mut compare = |out: &mut RunOut, how: &str, i: usize, got: &(String, String)| {
+    let compare = |out: &mut RunOut, how: &str, i: usize, got: &(String, String)| {
         if got.0 != golden[i].0 {
             out.violate("C18", "same-outcome-on-repetition", format!("{}: corpus[{}] gave {:?}, single-threaded golden outcome is {:?}; request: {}", how, i, got.0, golden[i].0, items[i].wire.describe()));
         } else if got.1 != golden[i].1 {
@@ -1072,6 +1072,32 @@ fn run_c18(t: &mut Tape, tier: Tier) -> RunOut {
 // ------------------------------------------------------------------------------------------------
 
 fn run_c19(t: &mut Tape, _tier: Tier) -> RunOut {
+    c19_world(t, None)
+}
+
+/// C19 thorough sweep: every duplicated input × before/after, 30 seeded worlds each.
+fn sweep_c19(out: &mut RunOut) -> u64 {
+    let mut n = 0;
+    for ki in 0..9usize {
+        for before in [false, true] {
+            for seed in 0..30u64 {
+                let mut t = Tape::from_seed(0xC19_0000 + seed * 31 + ki as u64);
+                let o = c19_world(&mut t, Some((ki, before)));
+                n += o.deliveries;
+                out.violations.extend(o.violations);
+                for (k, v) in o.probes {
+                    *out.probes.entry(k).or_insert(0) += v;
+                }
+                for (k, v) in o.faults {
+                    *out.probes.entry(k).or_insert(0) += v;
+                }
+            }
+        }
+    }
+    n
+}
+
+fn c19_world(t: &mut Tape, forced: Option<(usize, bool)>) -> RunOut {
     let mut out = RunOut::default();
     out.log_hash = FNV0;
     let mut accounts = gen::gen_accounts(t, 2);
@@ -1106,7 +1132,8 @@ fn run_c19(t: &mut Tape, _tier: Tier) -> RunOut {
         // the same request without the duplicate is the baseline that isolates the selection rules
         let mut origin = m.clone();
         origin.home_node = 0;
-        let before = t.chance(2);
+        let drawn_before = t.chance(2);
+        let before = forced.map(|f| f.1).unwrap_or(drawn_before);
         let header = m.auth.carrier == Carrier::Header;
         // which duplicated input; `accept` = the valid one sits where the documented rule selects
         let kinds: &[&str] = if header {
@@ -1114,7 +1141,8 @@ fn run_c19(t: &mut Tape, _tier: Tier) -> RunOut {
         } else {
             &["qp:X-Amz-Credential", "qp:X-Amz-Signature", "qp:X-Amz-SignedHeaders", "qp:X-Amz-Date", "qp:X-Amz-Algorithm", "qp:X-Amz-Security-Token", "both-carriers"]
         };
-        let kind = kinds[t.below(kinds.len())];
+        let drawn_kind = t.below(kinds.len());
+        let kind = kinds[forced.map(|f| f.0 % kinds.len()).unwrap_or(drawn_kind)];
         let bogus_instant = m.auth.instant_ns + (37 + t.below(400) as i128) * refm::NS;
         let bogus_date = refm::compact_utc(bogus_instant);
         let mut accept: Option<bool> = None;
@@ -1411,52 +1439,16 @@ fn c13_build(m0: &Message, atoms: &[Atom], accounts: &[Account], node: &Node, va
     }
 }
 
-fn run_c13(t: &mut Tape, _tier: Tier) -> RunOut {
-    let mut out = RunOut::default();
-    out.log_hash = FNV0;
-    let accounts = gen::gen_accounts(t, 2);
-    let mut mix = Mix::base();
-    mix.req.big_body_one_in = 0;
-    mix.req.max_pairs = 3;
-    mix.req.max_segs = 3;
-    mix.req.max_headers = 3;
-    mix.sign.date_noise = 2;
-    let node = gen::gen_node(t, &mix.node);
-    let epoch = gen::gen_epoch(t);
-    let nmsg = 1 + t.below(3);
-    let shared_level = t.below(5) as u8;
-    for mi in 0..nmsg {
-        let ai = t.below(accounts.len());
-        let l = gen::gen_logical(t, &node, &mix.req);
-        let s = gen::sign_message(t, l, &node, &accounts[ai], ai, 0, epoch + mi as i128 * 11 * refm::NS, &mix.sign);
-        let mut m0 = s.msg;
-        m0.origin_fp = faults::fingerprint(&m0, &accounts);
-        // 1-4 distinct atoms
-        let k = 1 + t.below(4);
-        let mut atoms: Vec<Atom> = Vec::new();
-        for _ in 0..k {
-            let (name, rule) = C13_ATOMS[t.below(C13_ATOMS.len())];
-            if atoms.iter().any(|a| a.name == name) {
-                continue;
-            }
-            // atoms that rewrite the same authentication input would mask each other
-            let clash = |a: &Atom| (a.name.starts_with("clock") && name.starts_with("clock")) || (a.name.starts_with("sig-") && name.starts_with("sig-")) || (a.name.starts_with("bad-algorithm") && name.starts_with("bad-algorithm"));
-            if atoms.iter().any(clash) {
-                continue;
-            }
-            // one defect per documented rule: two defects of the same rank have no defined order
-            if atoms.iter().any(|a| a.rule.precedence() == rule.precedence()) {
-                continue;
-            }
-            atoms.push(Atom {
-                name,
-                rule,
-                variant: t.u64(),
-            });
-        }
+
+/// One C13 case: `m0` with `atoms` applied, against its earliest-defect twin.
+fn c13_case(mi: usize, m0: &Message, atoms: &[Atom], accounts: &Vec<Account>, node: &Node, shared_level: u8, out: &mut RunOut) {
+    let accounts = accounts.clone();
+    let node = node.clone();
+    let mut out = out;
+    let out: &mut RunOut = &mut out;
         let d = c13_build(&m0, &atoms, &accounts, &node, 0);
         if d.applied.is_empty() {
-            continue;
+            return;
         }
         // the earliest rule among the defects that actually applied
         let (min_name, min_rule) = *d.applied.iter().min_by_key(|(_, r)| r.precedence()).unwrap();
@@ -1492,16 +1484,16 @@ fn run_c13(t: &mut Tape, _tier: Tier) -> RunOut {
             }
             Some((v, rep.outs.into_iter().next().unwrap(), ev))
         };
-        let (dv, dout, dev) = match eval(&d, &mut out) {
+        let (dv, dout, dev) = match eval(&d, out) {
             Some(x) => x,
             None => {
                 out.probe("wire_rejected_by_http");
-                continue;
+                return;
             }
         };
-        let (tv, tout, tev) = match eval(&tw, &mut out) {
+        let (tv, tout, tev) = match eval(&tw, out) {
             Some(x) => x,
-            None => continue,
+            None => return,
         };
         out.note(format!("msg{}: defects {:?}; earliest = {} ({})", mi, d.applied.iter().map(|(n, r)| format!("{}→{}", n, r.name())).collect::<Vec<_>>(), min_name, min_rule.name()));
         out.note(format!("  combined: {} → reference {:?}, library {}", libi::truncate(&d.wire.describe(), 500), dv, dout.short()));
@@ -1556,13 +1548,13 @@ fn run_c13(t: &mut Tape, _tier: Tier) -> RunOut {
         let agree = matches!((&dv, &tv), (Verdict::Refuse(a), Verdict::Refuse(b)) if a == b && a.precedence() == min_rule.precedence());
         if !agree {
             out.probe("defects_interact_unasserted");
-            continue;
+            return;
         }
         if let Verdict::Refuse(r) = &dv {
             out.probe(&format!("rule_reported[{}]", r.name()));
         }
         if d.applied.len() < 2 {
-            continue;
+            return;
         }
         let sig = |o: &ValOut| match o {
             ValOut::Err(e) => format!("{} {} {:?}", e.kind, e.status, libi::classify(e).iter().map(|r| r.name()).collect::<Vec<_>>()),
@@ -1572,7 +1564,7 @@ fn run_c13(t: &mut Tape, _tier: Tier) -> RunOut {
         if unclassified(&dout) || unclassified(&tout) {
             out.probe("error_message_unclassified");
             if dout.err().map(|e| e.kind) == tout.err().map(|e| e.kind) {
-                continue;
+                return;
             }
         }
         out.probe("precedence_twin_compared");
@@ -1593,7 +1585,97 @@ fn run_c13(t: &mut Tape, _tier: Tier) -> RunOut {
         }
         out.shape = fnv(out.shape, format!("{:?}|{}", d.applied.iter().map(|(n, _)| *n).collect::<Vec<_>>(), sig(&dout)).as_bytes());
     }
+
+fn run_c13(t: &mut Tape, _tier: Tier) -> RunOut {
+    let mut out = RunOut::default();
+    out.log_hash = FNV0;
+    let accounts = gen::gen_accounts(t, 2);
+    let mut mix = Mix::base();
+    mix.req.big_body_one_in = 0;
+    mix.req.max_pairs = 3;
+    mix.req.max_segs = 3;
+    mix.req.max_headers = 3;
+    mix.sign.date_noise = 2;
+    let node = gen::gen_node(t, &mix.node);
+    let epoch = gen::gen_epoch(t);
+    let nmsg = 1 + t.below(3);
+    let shared_level = t.below(5) as u8;
+    for mi in 0..nmsg {
+        let ai = t.below(accounts.len());
+        let l = gen::gen_logical(t, &node, &mix.req);
+        let s = gen::sign_message(t, l, &node, &accounts[ai], ai, 0, epoch + mi as i128 * 11 * refm::NS, &mix.sign);
+        let mut m0 = s.msg;
+        m0.origin_fp = faults::fingerprint(&m0, &accounts);
+        // 1-4 distinct atoms
+        let k = 1 + t.below(4);
+        let mut atoms: Vec<Atom> = Vec::new();
+        for _ in 0..k {
+            let (name, rule) = C13_ATOMS[t.below(C13_ATOMS.len())];
+            if atoms.iter().any(|a| a.name == name) {
+                continue;
+            }
+            // atoms that rewrite the same authentication input would mask each other
+            let clash = |a: &Atom| (a.name.starts_with("clock") && name.starts_with("clock")) || (a.name.starts_with("sig-") && name.starts_with("sig-")) || (a.name.starts_with("bad-algorithm") && name.starts_with("bad-algorithm"));
+            if atoms.iter().any(clash) {
+                continue;
+            }
+            // one defect per documented rule: two defects of the same rank have no defined order
+            if atoms.iter().any(|a| a.rule.precedence() == rule.precedence()) {
+                continue;
+            }
+            atoms.push(Atom {
+                name,
+                rule,
+                variant: t.u64(),
+            });
+        }
+        c13_case(mi, &m0, &atoms, &accounts, &node, shared_level, &mut out);
+    }
     out
+}
+
+/// C13 thorough sweep: every single defect and every pair of defects of different rank, on both
+/// carriers, for three base requests each.
+fn sweep_c13(out: &mut RunOut) -> u64 {
+    let mut mix = Mix::base();
+    mix.req.big_body_one_in = 0;
+    mix.req.max_pairs = 2;
+    mix.req.max_segs = 2;
+    mix.sign.date_noise = 0;
+    let mut n = 0u64;
+    for seed in 0..6u64 {
+        let b = crate::sweeps::base(seed, &mix);
+        for (i, (n1, r1)) in C13_ATOMS.iter().enumerate() {
+            for (j, (n2, r2)) in C13_ATOMS.iter().enumerate() {
+                if j < i {
+                    continue;
+                }
+                let mut atoms = vec![Atom {
+                    name: n1,
+                    rule: *r1,
+                    variant: seed * 7919 + i as u64,
+                }];
+                if j > i {
+                    if r1.precedence() == r2.precedence() {
+                        continue;
+                    }
+                    atoms.push(Atom {
+                        name: n2,
+                        rule: *r2,
+                        variant: seed * 104729 + j as u64,
+                    });
+                }
+                let mut o = RunOut::default();
+                c13_case(0, &b.msg, &atoms, &b.accounts, &b.node, 0, &mut o);
+                n += o.deliveries;
+                out.violations.extend(o.violations);
+                for (k, v) in o.probes {
+                    *out.probes.entry(k).or_insert(0) += v;
+                }
+            }
+        }
+    }
+    n
 }
 
 pub fn registry() -> Vec<Profile> {
@@ -1609,7 +1691,7 @@ pub fn registry() -> Vec<Profile> {
             real: REAL_COMMON,
             stubs: STUBS_COMMON,
             assumptions: ASSUME_COMMON,
-            sweep: None,
+            sweep: Some(sweep_c13),
         },
         Profile {
             id: "C08",
@@ -1661,7 +1743,7 @@ pub fn registry() -> Vec<Profile> {
             real: REAL_COMMON,
             stubs: STUBS_COMMON,
             assumptions: ASSUME_COMMON,
-            sweep: None,
+            sweep: Some(sweep_c19),
         },
     ]
 }
